@@ -416,7 +416,7 @@ PROPS = {
             "rule": "key-assignment attempts (by outcome and consumer phase), validator creations (by outcome and kind of key) and blocks by number of assigned keys",
             "required_classes": {"quick": ["AssignKey_ok_launched", "AssignKey_rej_launched", "createval_ok_fresh"]}, "assumptions": []},
     "C06": {"level": "model_checking", "mc": MC_KEYS, "corpora": [RANDOM, SCRIPTED], "invariants": ["C06_Attributable", "C06_PruneListed"],
-            "properties": ["C06_Free", "C08_Outcome"], "classify": cls_c06,
+            "properties": ["C06_Free", "C05_Reject", "C08_Outcome"], "classify": cls_c06,
             "rule": "end-blocks by number of keys scheduled for pruning, assignments by phase, slash packets by kind of key",
             "required_classes": {"quick": ["assign_on_launched", "prune_entries_1"]}, "assumptions": []},
     "C07": {"level": "model_checking",
